@@ -19,6 +19,43 @@ class NoAttrs:
     pass
 
 
+class Caseless(str):
+    """Text whose case does not matter, consistently (all six comparisons and the hash)."""
+
+    def _k(self):
+        return str.lower(self)
+
+    def _o(self, other):
+        return str.lower(other) if isinstance(other, str) else None
+
+    def __hash__(self):
+        return hash(self._k())
+
+    def __eq__(self, other):
+        o = self._o(other)
+        return NotImplemented if o is None else self._k() == o
+
+    def __ne__(self, other):
+        o = self._o(other)
+        return NotImplemented if o is None else self._k() != o
+
+    def __lt__(self, other):
+        o = self._o(other)
+        return NotImplemented if o is None else self._k() < o
+
+    def __le__(self, other):
+        o = self._o(other)
+        return NotImplemented if o is None else self._k() <= o
+
+    def __gt__(self, other):
+        o = self._o(other)
+        return NotImplemented if o is None else self._k() > o
+
+    def __ge__(self, other):
+        o = self._o(other)
+        return NotImplemented if o is None else self._k() >= o
+
+
 class SubInterfaceClass(InterfaceClass):
     pass
 
@@ -68,14 +105,37 @@ def run_case(ctx, rng, job):
     if all(x.__module__ is None for x in nomod):
         ctx.count('interfaces_without_module', len(nomod))
         ifs.extend(nomod)
+    # names that are text of a caller's own kind (a str subclass with a consistent comparison and hash of its own: case
+    # does not matter): interfaces are ordered, compared and hashed by the names as they compare themselves
+    ci = [InterfaceClass(Caseless(n_), (Interface,), {}, __module__=rng.choice(['m', Caseless('M')])) for n_ in ('Qx', 'qX', 'QY', 'qy', 'Qz')]
+    # (a pool of their own: mixed with case-sensitive names the *keys* are not totally ordered)
+    if all(type(x.__name__) is Caseless for x in ci):
+        ctx.count('interfaces_with_names_of_a_str_subclass', len(ci))
+        for a in ci:
+            for b in ci:
+                ka, kb = key(a), key(b)
+                for oname, op in OPS:
+                    ctx.ev()
+                    try:
+                        got = op(a, b)
+                    except Exception as e:
+                        got = 'raised %s' % type(e).__name__
+                    if got is not op(ka, kb):
+                        ctx.violation('operator-vs-key', {'op': oname, 'a': ['caseless'] + list(map(str, ka)), 'b': ['caseless'] + list(map(str, kb)),
+                                                          'got': repr(got), 'expected': op(ka, kb)})
+                if ka == kb and hash(a) != hash(b):
+                    ctx.violation('equal-but-hash-differs', {'a': list(map(str, ka)), 'b': list(map(str, kb))})
+        ctx.ev()
+        if [id(x) for x in sorted(ci)] != [id(x) for x in sorted(ci, key=key)]:
+            ctx.violation('sorted-not-stable-by-key', {'pool': 'caseless names'})
     # equal-keyed twins, on purpose (never wired into one graph)
     for _ in range(rng.randint(1, 3)):
-        t = rng.choice([x for x in ifs if x.__name__ is not None and x.__module__ is not None])
+        t = rng.choice([x for x in ifs if type(x.__name__) is str and type(x.__module__) is str])
         ifs.append(InterfaceClass(fresh(t.__name__), (Interface,), {}, __module__=fresh(t.__module__)))
     # equal-keyed twins whose concrete classes differ: an instance of an InterfaceClass subclass, and an interface
     # defining an interfacemethod (the library builds a private InterfaceClass subclass for it)
     for _ in range(rng.randint(1, 2)):
-        t = rng.choice([x for x in ifs if x.__name__ is not None and x.__module__ is not None])
+        t = rng.choice([x for x in ifs if type(x.__name__) is str and type(x.__module__) is str])
         if rng.random() < 0.5:
             ifs.append(SubInterfaceClass(fresh(t.__name__), (Interface,), {}, __module__=fresh(t.__module__)))
         else:
@@ -269,6 +329,24 @@ def run_case(ctx, rng, job):
             ctx.violation('transitivity', {'a': list(key(a)), 'b': list(key(b)), 'c': list(key(c))})
         if (a < b) + (b < a) + (key(a) == key(b)) != 1:
             ctx.violation('trichotomy', {'a': list(key(a)), 'b': list(key(b))})
+    # an interface renamed to another one's key (names and modules are plain writable attributes; a reloaded module that
+    # is patched in place does this): from then on the two are equal and unordered, like their keys.  (The hash is not
+    # looked at: it is computed once, at creation.)
+    plain = [x for x in ifs if type(x.__name__) is str and type(x.__module__) is str]
+    if len(plain) >= 2:
+        ra = InterfaceClass('Renamed%d' % rng.randrange(10 ** 6), (Interface,), {}, __module__='m')
+        rb_ = rng.choice(plain)
+        hash(ra), hash(rb_), ra == rb_
+        ra.__name__ = ''.join(list(rb_.__name__))
+        ra.__ibmodule__ = ''.join(list(rb_.__module__))
+        if key(ra) == key(rb_):
+            for x, y in ((ra, rb_), (rb_, ra)):
+                for oname, op in OPS:
+                    ctx.ev()
+                    ctx.count('comparisons_after_a_rename')
+                    if op(x, y) is not op(key(x), key(y)):
+                        ctx.violation('operator-vs-key', {'op': oname, 'after': 'rename to the other key', 'a': list(key(x)), 'b': list(key(y)),
+                                                          'got': repr(op(x, y)), 'expected': op(key(x), key(y))})
     # sorting: equals a stable sort by key; rendered result is process independent
     pool = named
     mixed = pool + [None]
